@@ -45,9 +45,23 @@ def sources(tier, d, rng):
     out.append(('asm', 'file:alias1', "BR go\nDATA 100\nPROC putc\nPROC putchar\nFUNC zz\ngo\nLDAC 0\nOPR BRB\nPROC stop\nPROC halt\nFUNC aa\nLDAC 1\nOPR BRB\n"))
     out.append(('asm', 'file:alias2', "".join("PROC p%d\n" % i for i in range(40, 0, -1)) + "LDAC 0\n" + "".join("FUNC f%s\n" % c for c in "zyxwvutsrq") + "OPR BRB\n"))
     out.append(('asm', 'file:bignum', "BR go\nDATA 123456\ngo\n" + "LDAC 100000\n" * 300 + "LDBC -1234567\nBR go\n"))
+    # one-instruction sources for every boundary operand: assembled in a fresh process (the executables) and late in a long in-process
+    # sequence, they must come out the same (anything a tool remembers from one operand to the next shows as a difference)
+    bvals = asmlib.value_list(rng, 0)
+    for v in (bvals if tier != "quick" else [x for x in bvals if abs(x) <= 17 or x in (255, 256, -255, -256, -257, 65535, 65536, -65536, 2 ** 31 - 1, -2 ** 31)]):
+        for m in ('LDAC', 'BR', 'LDAM'):
+            out.append(('asm', 'imm1:%s:%d' % (m, v), "%s %s\n" % (m, asmlib.lit(v, False))))
     big = xlib.std_program(xlib.seq([xlib.ass(xlib.var('x'), xlib.num(1000000 + i)) for i in range(260)] + [xlib.exit_(xlib.var('x'))]))
     out.append(('x', 'file:bignum', xlib.src_of(big)))
     return out
+
+
+def fnv64(b):
+    """the hash harness/det_case prints (FNV-1a, 64 bit)"""
+    h = 1469598103934665603          # (the basis as the harness has it)
+    for x in b:
+        h = ((h ^ x) * 0x100000001b3) & 0xFFFFFFFFFFFFFFFF
+    return h
 
 
 def key_of(kind, src):
@@ -82,6 +96,9 @@ def run(tier, replay=None):
             for pos, r in enumerate(vlib.read_ndjson(of)):
                 history.append({'key': r['id'], 'cfg': "%s/perturb=%s/dirty=%s/pos=%d" % (cfgname, perturb, dirtybyte, pos),
                                 'obs': "%s:%s:%d:%s" % (r['status'], r['bin'], r['len'], r['lst'])})
+                if r['status'] == 'ok':
+                    # the binary itself, comparable with what a fresh process of the executable writes for the same source
+                    history.append({'key': "bin:" + r['id'], 'cfg': "in-process/%s/pos=%d" % (cfgname, pos), 'obs': "%s:%d" % (r['bin'], r['len'])})
         keys = [k for k, _ in items]
         in_process(keys, "forward", None, -1)
         in_process(list(reversed(keys)), "reversed", 85, 0xA5)
@@ -94,7 +111,7 @@ def run(tier, replay=None):
                 in_process(sh, "shuffled%d" % i, rng.choice([1, 33, 77, 129, 200]), rng.randrange(256))
         # executables: one process per source
         tdir = corpus.tools()
-        sample = [it for it in items if bykey[it[0]][1].startswith(('file:', 'valorder'))] + rng.sample(items, min(len(items), 150 if tier == "quick" else 3000))
+        sample = [it for it in items if bykey[it[0]][1].startswith(('file:', 'valorder', 'imm1:'))] + rng.sample(items, min(len(items), 150 if tier == "quick" else 3000))
         have_setarch = shutil.which("setarch") is not None
         envs = [("plain", {}, False), ("perturb85+bigenv", {"MALLOC_PERTURB_": "85", "PAD": "x" * 60000}, False), ("perturb170", {"MALLOC_PERTURB_": "170"}, have_setarch),
                 ("mmap-everything", {"GLIBC_TUNABLES": "glibc.malloc.mmap_threshold=0", "MALLOC_MMAP_THRESHOLD_": "0"}, False),
@@ -118,6 +135,8 @@ def run(tier, replay=None):
                 p2 = vlib.sh(pre + [tool, fn, "-S" if kind == 'x' else "--instrs"], cwd=wd, env=env, timeout=120)
                 nproc += 2
                 b = open(outb, "rb").read() if os.path.exists(outb) else b""
+                if p1.returncode == 0 and b:
+                    history.append({'key': "bin:" + k, 'cfg': "exe/" + name, 'obs': "%016x:%d" % (fnv64(b), len(b))})
                 history.append({'key': "exe:" + k, 'cfg': "exe/" + name,
                                 'obs': "%d:%s:%d:%s" % (p1.returncode, hashlib.sha256(b).hexdigest()[:16], p2.returncode, hashlib.sha256(p2.stdout).hexdigest()[:16])})
         # canary: a contradicting observation for an existing key
@@ -128,7 +147,7 @@ def run(tier, replay=None):
         if out['nbad'] - len(bad) != 1 and len(out['bad']) < 40:
             raise vlib.MachineryError("canary not reported: binding is not live")
         for b in bad:
-            k = b['key'][4:] if b['key'].startswith('exe:') else b['key']
+            k = b['key'][4:] if b['key'].startswith(('exe:', 'bin:')) else b['key']
             kind, sid, src = bykey[k]
             fam = ''.join(ch for ch in sid if not ch.isdigit()).split(':')[0]
             chk.violation("%s:%s" % (kind, fam), "same source (%s %s), different result: %s vs %s" % (kind, sid, b['cfg1'], b['cfg2']),
